@@ -26,7 +26,7 @@ def run_case(rng, res, idx, tier):
     from deepspeed.runtime.pipe.topology import PipeModelDataParallelTopology
     from kverif import kharness as kh, neox, simdist
 
-    spec = neox.gen_spec(rng, max_world=tier_value(tier, 8, 16), checkpoint=False)
+    spec = neox.gen_spec(rng, max_world=tier_value(tier, 8, 16), checkpoint=False, deep=0.2)
     spec['sgd_lr'] = 0.05
     T = rng.randint(2, 4)
     spec['history'] = [('train',)] * T
